@@ -512,12 +512,19 @@ func fetchStreamRecord(url string) map[string]interface{} {
 	}
 	defer resp.Body.Close()
 	rd := bufio.NewReader(resp.Body)
+	// the record wanted is one COMPUTED after this listener connected: a tick that was already under way when the
+	// listener registered can still deliver what it computed before (seen once, under load, as a record computed
+	// under the previous configuration) -- so the first record is skipped and the second returned
+	seen := 0
 	for {
 		line, err := rd.ReadString('\n')
 		if strings.HasPrefix(line, "data:") {
 			var rec map[string]interface{}
 			if json.Unmarshal([]byte(strings.TrimPrefix(strings.TrimSpace(line), "data:")), &rec) == nil {
-				return rec
+				seen++
+				if seen >= 2 {
+					return rec
+				}
 			}
 		}
 		if err != nil {
